@@ -54,6 +54,14 @@ func structuralTargets(data []byte, cfg gen.Cfg) []int {
 		for i := 0; i < 12; i++ {
 			t = append(t, off+i) // type, block_len, first record
 		}
+		for _, e := range b.Objs() {
+			if e.CountOff > 0 {
+				t = append(t, e.CountOff) // explicit position count of an object record
+			}
+			if e.PosOff > 0 {
+				t = append(t, e.PosOff)
+			}
+		}
 		end := int(b.Off) + int(b.Len)
 		if b.Type != 'g' {
 			for i := 1; i <= 2+3*minI(b.Restarts, 3); i++ {
